@@ -21,6 +21,7 @@ from vcheck import core
 KEY_D12A = 'default-warper-nan-label-collapses-below-median'        # fix: c18-halfrank-nan
 KEY_D12B = 'dynamic-range-beyond-float64-resolution'                # known finding
 KEY_OVERFLOW = 'label-magnitude-near-float64-max'                   # known finding
+KEY_MARGIN = 'infeasible-margin-absorbed-at-large-magnitude'        # known finding
 KEY_UNWARP_MEDIAN = 'halfrank-unwarp-threshold-is-median-of-unique-labels'   # fix: c18-halfrank-unwarp-median
 KEY_UNWARP_LOOKUP = 'halfrank-unwarp-lookup-misindexed'             # fix: c18-halfrank-unwarp-lookup
 KEY_GAUSS_RANK = 'transform-to-gaussian-use-rank-argsort'           # fix: c18-gaussian-use-rank
@@ -87,15 +88,39 @@ def dyn_class(xs):
   return 'ok'
 
 
+def in_class(xs):
+  """'ok' unless floats cannot be expected to follow the field: see dyn_class; plus the case
+  of an infeasible entry whose margin `0.5*range + 1` is (nearly) absorbed by the magnitude"""
+  cls = dyn_class(xs)
+  if cls != 'ok':
+    return cls
+  f = [x for x in xs if math.isfinite(x)]
+  if f and len(f) < len(xs):
+    s = max(abs(min(f)), abs(max(f)))
+    if s > 0 and (0.5 * (max(f) - min(f)) + 1.0) / s < RES:
+      return 'resolution'
+  return 'ok'
+
+
+def margin_absorbed(xs):
+  """the infeasible warper's bad value `min - (0.5*range + 1)` is not below `min` in float64"""
+  f = [x for x in xs if math.isfinite(x)]
+  if not f or len(f) == len(xs):
+    return False
+  mn, mx = min(f), max(f)
+  return not (mn - (0.5 * (mx - mn) + 1.0) < mn)
+
+
 GRID = [-3, -2, -1, 0, 1, 2, 3, 4, 5, 6]
 
 
 def gen_labels(rng, tier):
-  sizes = [1, 1, 2, 2, 3, 3, 4, 5, 5, 6, 7, 8, 10, 12, 14, 15, 16, 20, 25, 30, 45, 60]
+  # (few distinct sizes in the quick tier: jax/tfp compile once per shape)
+  sizes = [1, 1, 2, 2, 3, 3, 4, 5, 5, 6, 8, 10, 12, 15, 16, 20, 30, 45, 60]
   if tier == 'thorough':
-    sizes += [70, 75, 90, 120]
+    sizes += [7, 9, 11, 13, 14, 17, 25, 50, 70, 72, 75, 90, 120]
   elif rng.random() < 0.05:
-    sizes = [70, 72]
+    sizes = [72]
   n = rng.choice(sizes)
   kind = rng.choice(['grid', 'grid', 'halfgrid', 'scaled', 'scaled', 'wide', 'const', 'offset', 'mixed', 'extreme', 'twolevel'])
   if kind == 'grid':
@@ -142,7 +167,7 @@ def order_relation(model_ord, real_vals):
   """Compare the order type of the real output with the model's.
   Returns 'equal', 'coarser' (real merges classes the model separates, no reversal) or
   'different' (a reversal or a split of a model class)."""
-  idx = [i for i, (m, r) in enumerate(zip(model_ord, real_vals)) if m is not None and r == r]
+  idx = [i for i, (m, r) in enumerate(zip(model_ord, real_vals)) if m is not None and math.isfinite(r)]
   if not idx:
     return 'equal'
   m = np.array([model_ord[i] for i in idx], dtype=np.int64)
@@ -274,7 +299,7 @@ def judge_pipeline(cx, op, xs, res, kind):
   """property of a pipeline (or of the infeasible component) on real output"""
   c = cx.c
   case = {'op': op, 'labels': jl(xs), 'kind': kind}
-  cls = dyn_class(xs)
+  cls = in_class(xs)
   has_nan = any(not math.isfinite(x) for x in xs)
 
   def fail(key, what):
@@ -293,7 +318,8 @@ def judge_pipeline(cx, op, xs, res, kind):
   if len(out) != len(xs):
     return
   if not all(math.isfinite(o) for o in out):
-    fail(KEY_D12B if cls == 'resolution' else 'nonfinite-output', 'non-finite output %r' % jl(out))
+    # finiteness is demanded on every input class
+    fail(KEY_MARGIN if margin_absorbed(xs) else 'nonfinite-output', 'non-finite output %r' % jl(out))
     return
   feas = [o for x, o in zip(xs, out) if math.isfinite(x)]
   infeas = [o for x, o in zip(xs, out) if not math.isfinite(x)]
@@ -317,7 +343,7 @@ def judge_component(cx, op, xs, res, kind):
   """property of one component on its own: shape, aliasing, finite labels stay finite-or-NaN
   (never ±inf), no order reversal"""
   c = cx.c
-  cls = dyn_class(xs)
+  cls = in_class(xs)
   case = {'op': op, 'labels': jl(xs), 'kind': kind}
 
   def fail(key, what):
@@ -370,7 +396,7 @@ def roundtrip(cx, op, xs, kind):
     return            # documented: constant / all-infeasible arrays are answered by shortcuts
   if op in ('halfrank', 'log') and len(fin) != len(xs):
     return            # HalfRankComponent.unwarp documents "does not support nan values"
-  cls = dyn_class(xs)
+  cls = in_class(xs)
   res = real.warp(op, xs, keep=True)
   if res['exc'] is not None or res['out'] is None or not all(o == o for o in res['out']):
     return            # judged by the warp property
@@ -392,7 +418,8 @@ def roundtrip(cx, op, xs, kind):
     c.prop_fail('shape-changed', '%s.unwarp changed the shape' % op, case)
     return
   un = [float(v) for v in un.reshape(-1)]
-  scale = max(abs(x) for x in fin)
+  # (the infeasible warper adds an absolute margin of 1: errors are relative to max(1, |labels|))
+  scale = max([1.0] + [abs(x) for x in fin])
   tol = RTOL * 10 * scale
   bad = [(i, x, u) for i, (x, u) in enumerate(zip(xs, un)) if math.isfinite(x) and not abs(u - x) <= tol]
   if not bad:
@@ -453,7 +480,7 @@ def tie_cases(cx, cases):
       meta.append((kind, xs, op))
   answers = c.lean('C18', reqs)
   for (kind, xs, op), m in zip(meta, answers):
-    cls = dyn_class(xs)
+    cls = in_class(xs)
     res = real.warp(op, xs)
     c.traces += 1
     fin = [x for x in xs if math.isfinite(x)]
@@ -563,14 +590,31 @@ def identify_flags(cx):
     c.tie_break('halfrank unwarp witness', {'labels': [1, 2, 3, 3, 3], 'umed': cx.umed}, real_rt, model_rt)
 
 
+def parse_labels(lst):
+  return [NAN if v == 'nan' else (NINF if v == '-inf' else (PINF if v == '+inf' else float(v))) for v in lst]
+
+
+def load_corpus():
+  import glob
+  import os
+  out = []
+  for p in sorted(glob.glob(os.path.join(core.VERIF, 'corpus', 'C18', '*.json'))):
+    try:
+      out.append(('corpus:' + os.path.basename(p)[:-5], parse_labels(json.load(open(p))['labels'])))
+    except (ValueError, KeyError):
+      continue
+  return out
+
+
 def witnesses(cx):
   """corpus: witnesses of the findings, replayed first"""
-  cases = [('witness', [1.0, 2.0, 3.0, 4.0, 5.0, NAN]), ('witness', [1.0, 2.0, 3.0, 4.0, 1e200]),
+  cases = load_corpus() + [('witness', [1.0, 2.0, 3.0, 4.0, 5.0, NAN]), ('witness', [1.0, 2.0, 3.0, 4.0, 1e200]),
            ('witness', [3.0, 3.0, NAN]), ('witness', [NINF, 1.0, 2.0]), ('witness', [1.0, 2.0, 3.0, 3.0, 3.0]),
-           ('witness', [1e6 + i for i in range(1, 10)]), ('witness', [5.0]), ('witness', [NAN, NAN]),
+           ('witness', [1e6 + i for i in range(1, 11)]), ('witness', [5.0]), ('witness', [NAN, NAN]),
            ('witness', [NAN, 1.0]), ('witness', [1e-300, 2e-300, 3e-300]), ('witness', [0.0, 1e-13, 1.0]),
            ('witness', [2.0, 2.0, 2.0, 2.0]), ('witness', [1.0, 2.0]), ('witness', [NINF]),
-           ('witness', [float(i % 7) for i in range(72)]), ('witness', [float(i) for i in range(16)] + [-1e9])]
+           ('witness', [float(i % 7) for i in range(72)]), ('witness', [float(i) for i in range(15)] + [-1e9]),
+           ('witness', [NINF, 1e30])]
   tie_cases(cx, cases)
   for kind, xs in cases:
     for op in ('default', 'halfrank', 'log', 'infeasible'):
@@ -585,7 +629,7 @@ def witnesses(cx):
 def gauss_rank_stream(cx, n):
   """TransformToGaussian(use_rank=True): property only (the rank option is not modelled)"""
   for _ in range(n):
-    k = cx.c.rng.randrange(2, 9)
+    k = cx.c.rng.choice([2, 3, 5, 8])
     xs = [float(v) for v in cx.c.rng.sample(range(-5, 20), k)]
     res = cx.real.warp('gauss_rank', xs)
     cx.c.count(1, kind='gauss_rank')
@@ -599,7 +643,7 @@ def linear_stream(cx, n):
   ow = cx.real.ow
   reqs, keep = [], []
   for _ in range(n):
-    k = c.rng.randrange(2, 12)
+    k = c.rng.choice([2, 3, 5, 8])
     xs = [float(c.rng.choice(GRID)) * c.rng.choice([1.0, 0.5, 100.0]) for _ in range(k)]
     if len(set(xs)) < 2:
       continue
@@ -636,22 +680,34 @@ def small_scope(cx, maxlen, ops=('default', 'outlier')):
     for xs in itertools.product(alph, repeat=k):
       xs = list(xs)
       for op in ops:
+        if op == 'outlier' and k == maxlen and maxlen > 3:
+          continue          # (tfp path is ~6x slower: one length less)
         res = cx.real.warp(op, xs)
         judge_pipeline(cx, op, xs, res, 'small-scope')
         n += 1
       if k <= 4:
         roundtrip(cx, 'default', xs, 'small-scope')
   cx.c.count(n, kind='small-scope<=%d' % maxlen)
-  cx.c.coverage_extra['small_scope'] = 'all label arrays of length <= %d over {nan,-1,0,1,2,1e6} through %s (real code, property predicates)' % (maxlen, '/'.join(ops))
+  cx.c.coverage_extra['small_scope'] = 'all label arrays of length <= %d over {nan,-1,0,1,2,1e6} through the default pipeline (outlier pipeline: one length less when > 3), real code, property predicates' % maxlen
 
 
 def run(c):
   c.proof_stage()
   cx = Ctx(c)
   identify_flags(cx)
+  if getattr(c, 'replay_path', None):
+    d = json.load(open(c.replay_path))
+    case = d.get('case', d)
+    xs = parse_labels(case['labels'])
+    tie_cases(cx, [('replay', xs)])
+    for op in ('default', 'halfrank', 'log', 'infeasible'):
+      roundtrip(cx, op, xs, 'replay')
+    if str(case.get('op', '')).startswith('gauss_rank') and admissible('gauss_rank', xs):
+      judge_component(cx, 'gauss_rank', xs, cx.real.warp('gauss_rank', xs), 'replay')
+    return c.finish(level='proof', rule='replay of ' + c.replay_path)
   witnesses(cx)
   malformed_stream(cx)
-  n = 220 if c.tier == 'quick' else 3000
+  n = 200 if c.tier == 'quick' else 2000
   cases = [gen_labels(c.rng, c.tier) for _ in range(n)]
   for i in range(0, len(cases), 500):
     tie_cases(cx, cases[i:i + 500])
@@ -683,5 +739,5 @@ def run(c):
       assumptions=['the library numerics (scipy norm.ppf, numpy log1p/sqrt, tfp SoftClip/Normal.quantile) are abstract monotone functions in the theorems; the tie compares values under rtol 1e-9 (float64 paths) / 2e-4 (tfp float32 path) and order types exactly',
                    'strict ranking is demanded of the real code only when the smallest gap between distinct labels exceeds 2^-40 of max(range, magnitude) and squares stay inside float64 (otherwise finding D12b); weak monotonicity and finiteness are demanded always',
                    'components are called on their own only within their documented/structural preconditions (HalfRank/DetectOutliers/ZScore/Normalize: at least one finite label; TransformToGaussian: no NaN); the malformed stream checks refusal',
-                   'unwarp round trips are judged on arrays with at least two distinct feasible labels (constant / all-infeasible arrays are answered by documented shortcuts that are not invertible), tolerance 1e-8 of the label magnitude'],
+                   'unwarp round trips are judged on arrays with at least two distinct feasible labels (constant / all-infeasible arrays are answered by documented shortcuts that are not invertible), tolerance 1e-8 * max(1, label magnitude)'],
       search=search)
